@@ -252,7 +252,11 @@ func (e *Engine) LoadContracts(specDir string) error {
 			}
 			callee, err := e.resolveFuncName(c)
 			if err != nil {
-				return err
+				// a callback (assume-call) named by its struct field or parameter
+				if _, err2 := e.resolveCallbackName(c); err2 != nil {
+					return err
+				}
+				callee = c.Name
 			}
 			e.callsites[caller+"|"+callee] = append(e.callsites[caller+"|"+callee], c)
 		case "immutable":
@@ -822,6 +826,9 @@ func (un *Unit) lockHeap(lv *LVal) (string, Term) {
 func (e *Engine) special(f *Frame, fn *ssa.Function, args []Val, st *State, pos token.Pos) (Val, bool) {
 	name := fn.String()
 	un := f.un
+	if name == "container/heap.Push" || name == "container/heap.Pop" || name == "container/heap.Init" {
+		return e.specialHeap(f, fn.Name(), args, st, pos), true
+	}
 	if name == "sort.SliceStable" || name == "sort.Slice" {
 		return e.specialSort(f, args, st), true
 	}
@@ -945,4 +952,111 @@ func (e *Engine) resolveCallbackName(c *Contract) (string, error) {
 		return key + "." + member, nil
 	}
 	return "", fmt.Errorf("%s:%d: assume-call %s resolves to nothing", c.File, c.Line, c.Name)
+}
+
+// specialHeap models container/heap.Init / Push / Pop on a slice type implementing heap.Interface (trusted, A-EXT heap):
+// the slice is permuted; Push adds exactly x; Pop removes and returns the root; after each of them no element is Less than
+// the root (the heap order, summarised by its consequence for the root; Pop additionally relies on the order having
+// been established by Init/Push/Pop before -- the repository only ever touches the slice through these three).
+func (e *Engine) specialHeap(f *Frame, op string, args []Val, st *State, pos token.Pos) Val {
+	un := f.un
+	u := un.u
+	h := args[0]
+	if h.LV == nil || h.Dyn == nil {
+		f.fail("container/heap.%s: the heap is not a statically known location", op)
+	}
+	pt, ok := h.Dyn.Underlying().(*types.Pointer)
+	if !ok {
+		f.fail("container/heap.%s: heap argument is not a pointer", op)
+	}
+	sl, ok := pt.Elem().Underlying().(*types.Slice)
+	if !ok {
+		f.fail("container/heap.%s: heap is not a slice type", op)
+	}
+	less := e.prog.LookupMethod(pt.Elem(), nil, "Less")
+	if less == nil {
+		less = e.prog.LookupMethod(h.Dyn, nil, "Less")
+	}
+	if less == nil {
+		f.fail("container/heap.%s: no Less method", op)
+	}
+	un.note("container/heap." + op + ": trusted model (permutation of the slice; Push adds x, Pop removes and returns the root; no element is Less than the root afterwards)")
+	es := u.SortOf(sl.Elem())
+	hn := un.elemHeap(sl.Elem())
+	rowS := ArrSort(SInt, es)
+	E := un.H(st, hn, ArrSort(SInt, rowS))
+	s := un.define("heap", un.readLV(h.LV, st))
+	oldRow := un.define("row", Select(E, SBase(s)))
+	off, ln := SOff(s), SLen(s)
+	var x Term
+	newLen := ln
+	switch op {
+	case "Push":
+		x = u.Unbox(IVal(args[1].T), es)
+		if p, ok := un.ifacePay[args[1].T.S]; ok {
+			x = p
+		}
+		newLen = Add(ln, IntLit(1))
+	case "Pop":
+		if !f.pure {
+			un.oblige(st, "index", "heap.Pop on an empty heap", pos, Gt(ln, IntLit(0)), true)
+		}
+		newLen = Sub(ln, IntLit(1))
+	}
+	// the element fields touched by Swap/Push/Pop of the slice type (index bookkeeping) are havocked as a whole
+	if _, sty := derefStruct(sl.Elem()); sty != nil {
+		T, _ := derefStruct(sl.Elem())
+		si := un.sinfo(T)
+		if i := si.fieldIndex("index"); i >= 0 {
+			hnI := un.fieldHeap(T, "index")
+			un.heapInit(hnI, ArrSort(SInt, si.fields[i].sort))
+			st.H[hnI] = un.freshHeap(st, hnI, ArrSort(SInt, si.fields[i].sort))
+		}
+	}
+	ns := un.fresh("heap_after", SSlice)
+	f.bumpNext(st)
+	un.assume(st, un.typeFacts(types.NewSlice(sl.Elem()), ns, st, 0))
+	un.assume(st, Eq(SLen(ns), newLen))
+	// the backing array is either the old one or a fresh one (append)
+	un.assume(st, Or(Eq(SBase(ns), SBase(s)), Gt(SBase(ns), un.H(st, "$limit", SInt))))
+	newRow := un.fresh("heaprow", rowS)
+	un.nfresh++
+	perm := fmt.Sprintf("hperm!%d", un.nfresh)
+	inv := fmt.Sprintf("hperminv!%d", un.nfresh)
+	un.decls = append(un.decls, fmt.Sprintf("(declare-fun %s (Int) Int)", perm), fmt.Sprintf("(declare-fun %s (Int) Int)", inv))
+	k := Term{"k", SInt}
+	noff := SOff(ns)
+	inNew := func(t Term) Term { return And(Le(noff, t), Lt(t, Add(noff, newLen))) }
+	inOld := func(t Term) Term { return And(Le(off, t), Lt(t, Add(off, ln))) }
+	pk, ik := mk(SInt, perm, k), mk(SInt, inv, k)
+	switch op {
+	case "Init":
+		un.assume(st, Forall([]Term{k}, Implies(inNew(k), And(inOld(pk), Eq(mk(SInt, inv, pk), k), Eq(Select(newRow, k), Select(oldRow, pk)))), Select(newRow, k)))
+		un.assume(st, Forall([]Term{k}, Implies(inOld(k), And(inNew(ik), Eq(mk(SInt, perm, ik), k), Eq(Select(newRow, ik), Select(oldRow, k)))), Select(oldRow, k)))
+	case "Push":
+		// every new position holds x or an old element; every old element and x have a new position
+		xpos := un.fresh("xpos", SInt)
+		un.assume(st, And(inNew(xpos), Eq(Select(newRow, xpos), x)))
+		un.assume(st, Forall([]Term{k}, Implies(And(inNew(k), Neq(k, xpos)), And(inOld(pk), Eq(mk(SInt, inv, pk), k), Eq(Select(newRow, k), Select(oldRow, pk)))), Select(newRow, k)))
+		un.assume(st, Forall([]Term{k}, Implies(inOld(k), And(inNew(ik), Neq(ik, xpos), Eq(mk(SInt, perm, ik), k), Eq(Select(newRow, ik), Select(oldRow, k)))), Select(oldRow, k)))
+	case "Pop":
+		root := Select(oldRow, off)
+		un.assume(st, Forall([]Term{k}, Implies(inNew(k), And(inOld(pk), Neq(pk, off), Eq(mk(SInt, inv, pk), k), Eq(Select(newRow, k), Select(oldRow, pk)))), Select(newRow, k)))
+		un.assume(st, Forall([]Term{k}, Implies(And(inOld(k), Neq(k, off)), And(inNew(ik), Eq(mk(SInt, perm, ik), k), Eq(Select(newRow, ik), Select(oldRow, k)))), Select(oldRow, k)))
+		x = root
+	}
+	E2 := un.H(st, hn, ArrSort(SInt, rowS))
+	un.setH(st, hn, Store(E2, SBase(ns), newRow))
+	un.writeLV(h.LV, st, ns)
+	// heap order: nothing is Less than the root
+	i := Term{"i!hp", SInt}
+	un.inQuant++
+	recv := Val{T: ns, Go: pt.Elem()}
+	lessI0 := f.applyPure(&Closure{Fn: less}, []Val{recv, {T: Sub(i, noff), Go: types.Typ[types.Int]}, {T: IntLit(0), Go: types.Typ[types.Int]}}, st)
+	un.inQuant--
+	un.assume(st, Forall([]Term{i}, Implies(inNew(i), Not(lessI0.T)), Select(newRow, i)))
+	if op == "Pop" {
+		return Val{T: IfaceMk(u.TypeTag(sl.Elem()), u.Box(x)), Go: types.NewInterfaceType(nil, nil), Dyn: sl.Elem()}
+	}
+	return Val{}
 }
